@@ -82,8 +82,28 @@ func probeCounters(dir string, data []byte, key tink.AEAD, m model.KV) string {
 }
 
 type RestartCase struct {
-	Ops     []dbx.Op `json:"ops"`
-	RealKEK bool     `json:"real_kek"`
+	Ops      []dbx.Op `json:"ops"`
+	RealKEK  bool     `json:"real_kek"`
+	FailSave []int    `json:"fail_save"` // indices of calls during which the database directory is renamed away, so a save fails
+}
+
+// wouldSave reports whether the (allowed) call writes the file in state m.
+func wouldSave(m model.KV, op dbx.Op, ver uint32) bool {
+	c := m.Clone()
+	switch op.Kind {
+	case "put":
+		before := c.Render(true)
+		_, cl := c.Put(op.Name, string(op.Val))
+		return cl == model.OK && c.Render(true) != before
+	case "activate":
+		s := m[op.Name]
+		return c.Activate(op.Name, ver) == model.OK && s != nil && s.Active != ver
+	case "delver":
+		return c.DeleteVersion(op.Name, ver) == model.OK
+	case "del":
+		return m[op.Name] != nil && c.Delete(op.Name) == model.OK
+	}
+	return false
 }
 
 func checkRestart(dir, path string, key tink.AEAD, tr *dbx.Tracker, step int, op dbx.Op) *h.Violation {
@@ -146,6 +166,37 @@ func runC03(t *testing.T, rc RestartCase) (*h.Violation, h.Info) {
 		if s := tr.M[op.Name]; s != nil && op.Kind == "delver" && ver == s.Latest && ver != s.Active {
 			sawNewestDeleted = true
 		}
+		failing := false
+		for _, f := range rc.FailSave {
+			if f == i && wouldSave(tr.M, op, ver) {
+				failing = true
+			}
+		}
+		if failing {
+			// the call's save fails (the directory is gone for its duration): the call must report
+			// an error, and it did not happen - not now, and not after a later save and a restart
+			away := dir + ".away"
+			if err := os.Rename(dir, away); err != nil {
+				return h.V("harness", "rename: %v", err), info
+			}
+			got := tgt.Do(su, op, ver)
+			if err := os.Rename(away, dir); err != nil {
+				return h.V("harness", "rename back: %v", err), info
+			}
+			info.Class("save-failed")
+			info.NonTrivial = true
+			if got.Class == model.OK {
+				return h.V("failed-save-is-reported", "step %d %s: the database directory was unavailable during the call, yet it reported success (%s)", i, op, got), info
+			}
+			dump, err := dbx.Dump(d)
+			if err != nil || dbx.DumpDiff(dump, tr.M) != "" {
+				return h.V("only-acknowledged-operations-take-effect", "step %d %s failed (%s), but the running database now holds %v %s", i, op, got.Err, err, dbx.DumpDiff(dump, tr.M)), info
+			}
+			if v := checkRestart(dir, path, key, tr, i, op); v != nil {
+				return v, info
+			}
+			continue
+		}
 		want := tr.Expect(su.Rules, op, ver)
 		got := tgt.Do(su, op, ver)
 		if diff := dbx.Compare(got, want); diff != "" {
@@ -176,7 +227,11 @@ var c03 = &h.Campaign[RestartCase]{
 	Rule: "rapid: superuser histories as in C02 (1-25 calls), dummy or real AES-256-GCM KEK; after EVERY call: a second db.Open of the same path must leave file bytes/inode/size/mtime untouched and dump exactly the model state, an independent decoder of the documented schema-v1 layout must yield the model state including next-version counters, and on a copy a fresh put to each name must return model.latest+1; non-trivial = a reopen that follows a successful delete/delete-version, or a counter probe after the newest version was deleted; distinct by history",
 	Quick: 4000, Thorough: 400000,
 	Gen: func(rt *rapid.T) RestartCase {
-		return RestartCase{Ops: dbx.GenHistory(rt, 1, 25), RealKEK: rapid.IntRange(0, 3).Draw(rt, "realkek") == 0}
+		c := RestartCase{Ops: dbx.GenHistory(rt, 1, 25), RealKEK: rapid.IntRange(0, 3).Draw(rt, "realkek") == 0}
+		if rapid.IntRange(0, 2).Draw(rt, "withfail") == 0 {
+			c.FailSave = rapid.SliceOfN(rapid.IntRange(0, 24), 1, 3).Draw(rt, "failsave")
+		}
+		return c
 	},
 	Run: runC03,
 }
